@@ -52,7 +52,7 @@ def main():
         checks = {}
         if res['patch_applies'] and res['suite_passes_with_patch']:
             for p in props:
-                envc = dict(os.environ, VERIF_REPO=scratch, VERIF_TIER=tier)
+                envc = dict(os.environ, VERIF_REPO=scratch, VERIF_TIER=tier, VERIF_JOBS=os.environ.get('VERIF_JOBS', '6'))
                 rc, out = sh(['./check', p, '--tier', tier], cwd=VERIF, env=envc)
                 lines = [l for l in out.split('\n') if l.startswith(('VIOLATION', 'UNDECIDED', '['))]
                 checks[p] = {'exit': rc, 'lines': [l[:400] for l in lines][:12]}
